@@ -67,9 +67,17 @@ func VerifH_C19_compat() {
 func VerifH_C19_run() {
 	verifPartLog, verifInitLog, verifMediaLog, verifMultiLog = nil, nil, nil, nil
 	frames := []int64{3000, 3003, 1500, 9000}
-	ticks := frames[verifChoice("frame", len(frames))]
+	fi := verifChoice("frame", len(frames))
+	if f := verifParam("FRAMEIDX", -1); f >= 0 {
+		fi = f
+	}
+	ticks := frames[fi]
 	sd := timestampToDuration(ticks, 90000)
 	pmin := time.Duration(verifRangeI64("pmin", int64(50*time.Millisecond), int64(time.Duration(verifParam("PMINMAX_MS", 400))*time.Millisecond)))
+	if lo := verifParam("PMIN_LO_NS", 0); lo != 0 {
+		// a narrow window around a multiple of the sample duration (the boundary class of the known finding)
+		verifAssume(pmin >= time.Duration(lo) && pmin <= time.Duration(verifParam("PMIN_HI_NS", lo)))
+	}
 	tr := verifVideoTrack()
 	tracks := []*Track{tr}
 	var atr *Track
